@@ -52,6 +52,22 @@ pub struct BlockInfo {
     pub(crate) parent: BlockId,
 }
 
+/// Constructor and accessors for out-of-tree verification (feature `verif-hooks`).
+#[cfg(feature = "verif-hooks")]
+impl BlockInfo {
+    pub fn verif_new(hash: BlockHash, parent: BlockId) -> Self {
+        Self { hash, parent }
+    }
+
+    pub fn verif_hash(&self) -> &BlockHash {
+        &self.hash
+    }
+
+    pub fn verif_parent(&self) -> &BlockId {
+        &self.parent
+    }
+}
+
 impl From<&Block> for BlockInfo {
     fn from(block: &Block) -> Self {
         BlockInfo {
